@@ -325,7 +325,8 @@ _RULE_ADDENDA = {
            "measurements differing beyond byte 64, large thresholds also 1025/1100, the adss-level relation C^D == M^R, and a bit-balance "
            "monitor over all interpolated coefficients of the run (n >= 512; value and value*2^192 mod p), and sharings dealt from a hostile "
            "random source (1..100 sampler rejections in a row before a coefficient): exact degree, non-zero coefficients; secrets of 2..4 "
-           "elements at the Shamir level: no coefficient twice across the elements, one share against the elements' differences.",
+           "elements at the Shamir level: no coefficient twice across the elements, one share against the elements' differences; t-1 genuine Shamir shares padded, at every "
+           "position, with one share of a secret of another element count at a fresh point: Sharks::recover must fail.",
     "C03": " Plus XOR combinations of the 32-byte report fields (C, D, tag, ...) tried as key and key seed, and an attacker who knows "
            "part of the victim's measurement (prefix / suffix / all but one byte / case / padding) and submits t-1 or t reports of its own; "
            "payloads of 4..9 KiB; the XOR relation re-appearing beyond the first block (pairs) or between two stretches of one report.",
@@ -348,13 +349,15 @@ _RULE_ADDENDA = {
            "invariant 'a refused input is covered by no retained node', and a replica that runs ahead, is re-synced and catches up.",
     "C12": " Plus re-imported blinds and imports of inconsistent key states (afterwards the server is its old self or the imported state), "
            "and outputs / proofs of unpunctured tags re-checked along puncture histories.",
-    "C13": " Plus completeness re-checked after puncture histories (lowest-first, middle, highest-first).",
+    "C13": " Plus completeness re-checked after puncture histories (lowest-first, middle, highest-first), and after a key "
+           "synchronisation into servers that already publish keys for the same tags, a subset or a superset (evaluations of the "
+           "importer verify under the key it publishes afterwards and under the exporter's key).",
     "C14": " Plus identity and base point in the point pool, tag lists with repeats, re-sync into a live instance.",
     "C15": " Plus the same JSON value with members reordered / re-spaced, valid-after-invalid loads, request points neutral element / "
            "base point; acceptance is demanded only of encodings of group elements.",
     "C16": " Plus six refused collection shapes (no y, threshold 0, sub-threshold, ...) each followed at once by an honest recovery, "
            "an every-threshold sweep (t independent share() calls, t = 1..320, thorough 1..1024), and shares of the same sharing on chosen "
-           "structured points incl. pairs congruent mod 2^128.",
+           "structured points incl. pairs congruent mod 2^128; messages equal to the encoded threshold (LE, BE, 8 bytes) or to the coins.",
     "C17": " Plus empty vs NUL measurements, an every-threshold sweep (1..700, thorough 1..1024), and calls right after a call refused "
            "for an undecodable line that followed t-1 good lines.",
     "C18": " Plus sibling measurements differing in trailing zeros, long aux, and a poisoned batch on the same server object before the "
@@ -367,7 +370,8 @@ for _k, _v in _RULE_ADDENDA.items():
 # minimum event counts of the later streams (a starved stream makes the run inconclusive)
 _MIN_ADDENDA = {
     "C01": {"threshold_sweep_scenarios": 300, "length_sweep_scenarios": 800, "replay_flood_scenarios": 4},
-    "C02": {"coefficient_bit_balance_checked": 2, "hostile_source_sharings": 300, "multi_element_sharings": 300},
+    "C02": {"coefficient_bit_balance_checked": 2, "hostile_source_sharings": 300, "multi_element_sharings": 300,
+            "sub_threshold_padded_with_other_length_share": 1000},
     "C03": {"related_measurement_attacks": 2000, "pair_tails_scanned_for_resumed_reuse": 1000, "reports_scanned_for_internal_reuse": 200},
     "C07": {"interpolate_lattice_pairs": 1000},
     "C11": {"refusal_vs_material_checks": 10000, "replica_ahead_resyncs": 50},
@@ -376,7 +380,9 @@ _MIN_ADDENDA = {
     "C10": {"wrong_length_calls": 100},
     "C12": {"history_rounds": 1000},
     "C15": {"json_structured_points": 100},
-    "C16": {"threshold_sweep": 300, "recover_chosen_points": 500},
+    "C16": {"threshold_sweep": 300, "recover_chosen_points": 500, "message_equals_threshold_encoding": 300,
+            "message_equals_coins": 150},
+    "C13": {"honest_verifications_after_key_sync": 1000},
     "C18": {"small_batch_scenarios": 50},
 }
 for _k, _v in _MIN_ADDENDA.items():
